@@ -354,8 +354,9 @@ class InvRangesAssembler(RangesAssembler):
                 c = _index2col(n)
                 ref = '{}{}'.format(c, r)
                 name = _name + ref
+                i, j = r - r0, n - n0
                 sol[name] = Ranges().set_value({
                     'r1': r, 'r2': r, 'c1': c, 'c2': c, 'n1': n, 'n2': n,
                     'ref': ref, 'name': name, 'sheet_id': sheet_id
-                }, value.value[r - r0, n - n0])
+                }, value.value[i:i + 1, j:j + 1])
         return res
